@@ -1252,6 +1252,15 @@ def interplin(vin, xin, uin):
     x = np.atleast_1d(xin)
     u = np.atleast_1d(uin)
 
+    # differences of unsigned integers wrap around (and those of signed ones
+    # can overflow): do the arithmetic for integer inputs in double
+    if v.dtype.kind in "iub":
+        v = v.astype("f8")
+    if x.dtype.kind in "iub":
+        x = x.astype("f8")
+    if u.dtype.kind in "iub":
+        u = u.astype("f8")
+
     # Find closest indices
     xm = x.searchsorted(u) - 1
 
